@@ -967,8 +967,66 @@ static void emit_segs(void) {
     nsegsnaps++;
   }
 }
+/* ---- heap dumps (refinement level, HeapTrace.tla / MiHeapValid.tla): the page queues of every heap of the running thread at a
+   quiescent point: queue links, per page its counters and flags and the number of blocks (and interior pointers) the program holds
+   in it, the heap's page count and the pages_free_direct table */
+static long nheapsnaps = 0;
+#define HS_MAXPG 4096
+static mi_page_t* hs_pages[HS_MAXPG]; static int hs_npages = 0;
+static int hs_pgid(mi_page_t* pg) {
+  if (pg == NULL) return 0;
+  for (int i = 0; i < hs_npages; i++) if (hs_pages[i] == pg) return i + 1;
+  if (hs_npages >= HS_MAXPG) return HS_MAXPG + 1;
+  hs_pages[hs_npages] = pg; return ++hs_npages;
+}
+static size_t hs_list_count(mi_page_t* pg, mi_block_t* head) { size_t n = 0; for (mi_block_t* b = head; b != NULL && n <= (size_t)pg->reserved + 1; b = mi_block_next(pg, b)) n++; return n; }
+static void hs_count_live(mi_page_t* pg, long* live, long* interior) {
+  *live = 0; *interior = 0;
+  uintptr_t a0 = (uintptr_t)pg->page_start; size_t bs = mi_page_block_size(pg); uintptr_t a1 = a0 + (size_t)pg->reserved * bs;
+  if (a0 == 0 || bs == 0) return;
+  for (int s = 0; s < MAXSLOTS; s++) if (slots[s].p && (uintptr_t)slots[s].p >= a0 && (uintptr_t)slots[s].p < a1) { (*live)++; if (((uintptr_t)slots[s].p - a0) % bs != 0) (*interior)++; }
+  for (int h = 1; h < MAXHEAPS; h++) if (hps[h].alive && hps[h].hp && (uintptr_t)hps[h].hp >= a0 && (uintptr_t)hps[h].hp < a1) (*live)++;      /* heap descriptors are blocks */
+  for (int g = 0; g < MAXGROUPS; g++) for (int j = 0; j < grps[g].n; j++) if (grps[g].p[j] && (uintptr_t)grps[g].p[j] >= a0 && (uintptr_t)grps[g].p[j] < a1) (*live)++;
+}
+static void emit_heaps(void) {
+  static long calls = 0;
+  if (!seg_snap_on || (seg_quiet && !seg_quiet()) || (calls++ % 2) != 0) return;
+  for (int hi = 0; hi < MAXHEAPS; hi++) {
+    if (!hps[hi].alive || hps[hi].hp == NULL || hi == heap_dying) continue;
+    mi_heap_t* heap = hps[hi].hp;
+    if (heap->thread_id != _mi_thread_id()) continue;
+    hs_npages = 0;
+    int quiet = (mi_atomic_load_ptr_relaxed(mi_block_t, &heap->thread_delayed_free) == NULL);
+    vf_logf("{\"e\":\"heap\",\"id\":%d,\"npages\":%zu,\"full\":%d,\"huge\":%d,\"quiet\":%s,\"queues\":[", hps[hi].id, heap->page_count, (int)MI_BIN_FULL + 1, (int)MI_BIN_HUGE + 1, quiet ? "true" : "false");
+    for (size_t b = 0; b <= MI_BIN_FULL; b++) {
+      mi_page_queue_t* pq = &heap->pages[b];
+      vf_logf("%s{\"bsize\":%zu,\"first\":%d,\"last\":%d,\"pages\":[", b ? "," : "", pq->block_size > 0x3FFFFFFF ? (size_t)0x3FFFFFFF : pq->block_size, hs_pgid(pq->first), hs_pgid(pq->last));
+      int n = 0; mi_page_t* pg = pq->first;
+      for (; pg != NULL && n < 3000; pg = pg->next, n++) {
+        size_t bs = mi_page_block_size(pg); long binof = -1;
+        if (bs > MI_MEDIUM_OBJ_SIZE_MAX) binof = (long)MI_BIN_HUGE + 1;      /* large and huge pages share the last size queue */
+        else for (size_t k = 1; k < MI_BIN_HUGE; k++) if (heap->pages[k].block_size == bs) { binof = (long)k + 1; break; }
+        long live, interior; hs_count_live(pg, &live, &interior);
+        size_t ntf = hs_list_count(pg, mi_page_thread_free(pg));
+        vf_logf("%s{\"pg\":%d,\"prev\":%d,\"heap\":%d,\"bsize\":%zu,\"binof\":%ld,\"full\":%s,\"aligned\":%s,\"used\":%u,\"cap\":%u,\"res\":%u,\"nfree\":%zu,\"ntf\":%zu,\"live\":%ld,\"interior\":%ld}",
+                n ? "," : "", hs_pgid(pg), hs_pgid(pg->prev), mi_page_heap(pg) == heap ? 1 : 0, bs > 0x3FFFFFFF ? (size_t)0x3FFFFFFF : bs, binof, mi_page_is_in_full(pg) ? "true" : "false",
+                mi_page_has_aligned(pg) ? "true" : "false", (unsigned)pg->used, (unsigned)pg->capacity, (unsigned)pg->reserved,
+                hs_list_count(pg, pg->free) + hs_list_count(pg, pg->local_free), ntf, live, interior);
+      }
+      vf_logf("],\"complete\":%s}", pg == NULL ? "true" : "false");
+    }
+    vf_logf("],\"direct\":[");
+    for (size_t w = 0; w < MI_PAGES_DIRECT; w++) {
+      mi_page_t* pg = heap->pages_free_direct[w];
+      int id = (pg == (mi_page_t*)&_mi_page_empty || pg == NULL) ? 0 : hs_pgid(pg);
+      vf_logf("%s[%zu,%d,%zu,%d]", w ? "," : "", w, id, id ? mi_page_block_size(pg) : (size_t)0, (int)_mi_bin(w * sizeof(uintptr_t)) + 1);
+    }
+    vf_logf("]}"); vf_log_line_end();
+    nheapsnaps++;
+  }
+}
 static void op_checkall(void) {
-  emit_segs();
+  emit_segs(); emit_heaps();
   vf_logf("{\"e\":\"checkall\",\"t\":0,\"obs\":[");
   int first = 1;
   for (int s = 0; s < MAXSLOTS; s++) if (slots[s].p) {
